@@ -56,3 +56,83 @@ func (b Boundary) MidRange() bool {
 	}
 	return len(b.Len) >= 7 && len(b.Len) <= 18
 }
+
+// Big is an input that declares a length far above what follows, with a LONG real prefix: Prefix (the
+// header) followed by Count copies of Pat.  The real part sits at and around the steps at which the
+// decoder doubles its buffers (64 KiB, 128 KiB, ... for payloads; 16, 32, ... for elements).
+type Big struct {
+	Name   string
+	Prefix []byte
+	Pat    []byte
+	Count  int
+	Heavy  bool // >= 1 MiB: expensive for the model evaluation inside coqc
+	Model  bool // quick tier: also evaluate the Coq model on this one (thorough: on all)
+}
+
+func (b Big) Len() int { return len(b.Prefix) + len(b.Pat)*b.Count }
+
+// Bigs lists the family; full = every doubling boundary +-1 up to 4 MiB (thorough tier).
+func Bigs(full bool) []Big {
+	var out []Big
+	kib := 1 << 10
+	reals := []int{64*kib - 1, 64 * kib, 64*kib + 1, 128 * kib, 128*kib + 1, 1024*kib - 1, 1024 * kib, 1024*kib + 1}
+	if full {
+		reals = nil
+		for b := 64 * kib; b <= 4096*kib; b *= 2 {
+			reals = append(reals, b-1, b, b+1)
+		}
+	}
+	decl := func(real int) []string {
+		return []string{"9223372036854775807", "100000000000", "134217728", itoa(real + 1)}
+	}
+	for _, t := range []byte{'$', '=', '!'} {
+		for _, real := range reals {
+			for di, d := range decl(real) {
+				if !full && t != '$' && di != 0 && real != 1024*kib+1 && real != 64*kib+1 {
+					continue // quick tier: all declared lengths only at two sizes for = and !
+				}
+				model := (t == '$' && di == 0 && (real < 1000*kib || real == 1024*kib+1)) || real == 64*kib+1
+				out = append(out, Big{Name: string(t) + d + "+" + itoa(real), Prefix: []byte(string(t) + d + "\r\n"), Pat: []byte{'a'}, Count: real, Heavy: real >= 1000*kib, Model: model})
+			}
+		}
+	}
+	if !full { // the steps above 1 MiB once each
+		for _, real := range []int{2048*kib + 1, 4096*kib + 1} {
+			out = append(out, Big{Name: "$max+" + itoa(real), Prefix: []byte("$9223372036854775807\r\n"), Pat: []byte{'a'}, Count: real, Heavy: true})
+		}
+	}
+	// a chunk of a streamed string
+	for _, real := range []int{64*kib + 1, 1024*kib + 1} {
+		for _, d := range []string{"9223372036854775807", "134217728"} {
+			out = append(out, Big{Name: "$?;" + d + "+" + itoa(real), Prefix: []byte("$?\r\n;" + d + "\r\n"), Pat: []byte{'a'}, Count: real, Heavy: real >= 1000*kib, Model: real < 1000*kib})
+		}
+	}
+	// aggregates with many real elements
+	for _, t := range []byte{'*', '%', '~', '>', '|'} {
+		for _, n := range []int{15, 16, 17, 33, 1025, 4097} {
+			for _, d := range []string{"4611686018427387903", "100000000000", itoa(n + 1)} {
+				out = append(out, Big{Name: string(t) + d + "x" + itoa(n), Prefix: []byte(string(t) + d + "\r\n"), Pat: []byte("_\r\n"), Count: n, Model: n < 4097 || t == '*'})
+			}
+		}
+	}
+	return out
+}
+
+func itoa(i int) string {
+	if i == 0 {
+		return "0"
+	}
+	neg := i < 0
+	if neg {
+		i = -i
+	}
+	var b []byte
+	for i > 0 {
+		b = append([]byte{byte('0' + i%10)}, b...)
+		i /= 10
+	}
+	if neg {
+		b = append([]byte{'-'}, b...)
+	}
+	return string(b)
+}
